@@ -22,11 +22,21 @@ from .translators import grammar as gtrans
 # --------------------------------------------------------------------------- reference table
 
 
+FALLBACK_NOTE = []
+
+
 def ref_table():
     """symbol -> dict(z, alias, isos, ions) as the translator reads core.py / mass.py
-    (D, T and the hand-added isotopes are the code of PeriodicTable.__init__ / mass.init)"""
-    eb = translate.literal(translate.module_ast("periodictable/core.py"), "element_base")
-    isos = {z: list(a) for z, _sym, a in gtrans.isotope_rows()}
+    (D, T and the hand-added isotopes are the code of PeriodicTable.__init__ / mass.init).
+    If a literal can no longer be read the runtime table is used for the correspondence (DESIGN 4.7);
+    the data-fact theorems are then reported as not re-checked by `Run.prove`."""
+    try:
+        eb = translate.literal(translate.module_ast("periodictable/core.py"), "element_base")
+        isos = {z: list(a) for z, _sym, a in gtrans.isotope_rows()}
+    except translate.Unreadable as e:
+        if not FALLBACK_NOTE:
+            FALLBACK_NOTE.append("reference table taken from the runtime (translator: %s)" % e)
+        return python_table_view(import_repo().elements)
     tbl = {}
     for z in sorted(eb):
         _name, sym, ions, unc = eb[z]
